@@ -177,6 +177,24 @@ def Op.kind : Op → Kind
 
 def Op.ty (o : Op) : Ty := ⟨o.kind, o.nRow, o.nCol⟩
 
+/-! ### source facts the dispatch of `Op` relies on
+
+Which of the dispatch-relevant methods each operator class defines itself (everything else is inherited from its
+base: scipy's generic `LinearOperator` arithmetic).  The harness extracts the same table from the source with
+Python's `ast` on every run and the driver compares (`c15.dispatch`): if a class gains or loses one of these
+methods, the model's dispatch no longer mirrors the code. -/
+
+def classMethods : String → Option (String × List String)
+  | "SparseLR" => some ("LinearOperator", ["__add__", "__mul__", "__neg__", "__sub__", "_adjoint", "_matvec",
+      "_transpose", "astype", "left_sparse_dot", "right_sparse_dot", "sum"])
+  | "Regularizer" => some ("SparseLR", [])
+  | "Normalizer" => some ("LinearOperator", ["_matvec", "_rmatvec"])
+  | "Laplacian" => some ("LinearOperator", ["_matvec", "_transpose", "astype"])
+  | "CoNeighbor" => some ("LinearOperator", ["__mul__", "__neg__", "_matvec", "_transpose", "astype",
+      "left_sparse_dot", "right_sparse_dot"])
+  | "Polynome" => some ("LinearOperator", ["__mul__", "__neg__", "_matvec", "_transpose"])
+  | _ => none
+
 /-! ### comparison within the tolerance of DESIGN §8 -/
 
 /-- `|a - b| ≤ tol · (1 + scale)` -/
